@@ -153,7 +153,10 @@ class Tensor:
                 result = Tensor(np.squeeze(result.value, axis=tuple(to_squeeze)))
         else:
             result = self
-        for axis, value in non_scalar_indices:
+        # Gather along the last axis first, so that the axes a Gather adds do not shift the
+        # axes of the Gathers after it. Scalar indices handled above removed their axes.
+        for axis, value in reversed(non_scalar_indices):
+            axis -= sum(1 for removed in to_squeeze if removed < axis)
             result = op.Gather(result, value, axis=axis)
 
         return result
